@@ -208,7 +208,7 @@ MORE7 = {
  "C08": " Extra lines after a pointer may themselves be well-formed pointer lines (ext-*, size, oid, version); the oracle's notion of pointer text includes the spec's key order, independently of the decoder. Cleaning a pointer must leave nothing in lfs/tmp (D72) and store nothing also with a pointer extension configured (D20, now repaired).",
  "C11": " Sub-sections named like, beginning or ending with the last component of a documented key; empty configuration files (D67b, theorem empty_file_contributes_nothing) and a .lfsconfig Git cannot parse beside settings of the user's own (D74) in the generated and the end-to-end cases.",
  "C12": " Campaign c12Export: standalone `migrate export` of files committed as pointers in five spellings (canonical, CRLF, earlier version URL, blank first line, second final newline).",
- "C13": " Which paths fsck expects to hold a pointer is a model (AttrFilter: fsck's include/exclude reading of the attribute lines vs Git's last-match rule — expected_pointer_paths_are_tracked, tracked_paths_are_expected_partial, the D21 witness, lockable_only_line_is_irrelevant), tied per raw file to what fsck names and to `git check-attr` (corr.C13.attr); attribute variants nested (D70), lockable-only line (D71), override (D21, known).",
+ "C13": " Which paths fsck expects to hold a pointer is a model (AttrFilter: fsck's include/exclude reading of the attribute lines vs Git's last-match rule — expected_pointer_paths_are_tracked, tracked_paths_are_expected, lockable_only_line_is_irrelevant), tied per raw file to what fsck names and to `git check-attr` (corr.C13.attr); attribute variants nested (D70), lockable-only line (D71), override and re-enable (D21, repaired: the full statement expected_pointer_paths_are_exactly_the_tracked_ones).",
  "C15": " Batch-level 401 scripts with a static credential helper (D73); the Wait deadline of a queue case covers the waits the case may rightly take.",
  "C16": " Campaign c16UnlockUncached: the user's own lock outside this clone's lock cache (taken elsewhere, or the cache lost), file edited / staged / clean, unlock by path or id, with and without --force.",
  "C18": " The storage may refuse the first request for an object although it carries the offered Authorization while a credential helper answers: every resubmission must still carry the offered header exactly once.",
